@@ -787,6 +787,7 @@ pub fn run_fuzz(ctx: &Ctx, prop: &Property, spec: &FuzzSpec, rec: &Recorder) -> 
             .arg(format!("-seed={}", 1 + (splitmix(ctx.seed ^ k.wrapping_mul(0x9E37)) % 4_000_000_000)))
             .arg(format!("-dict={}", dict.display()))
             .arg("-len_control=0")
+            .arg("-use_value_profile=1")
             .arg(format!("-max_len={}", spec.max_len))
             .arg(format!("-artifact_prefix={}/p{}-", artifacts.display(), k))
             .arg("-print_final_stats=1")
